@@ -202,6 +202,73 @@ where
     }
 }
 
+/// What can go wrong with one chunk of a text stream.
+enum TextChunkError {
+    /// The bytes received are not UTF-8.
+    Utf8(String),
+    /// The other side sent a serialized error instead of a chunk.
+    Remote(Bytes),
+}
+
+impl TextChunkError {
+    fn into_error<E: FromServerFnError>(self) -> E {
+        match self {
+            TextChunkError::Utf8(msg) => E::from_server_fn_error(
+                ServerFnErrorErr::Deserialization(msg),
+            ),
+            TextChunkError::Remote(bytes) => E::de(bytes),
+        }
+    }
+}
+
+/// Decodes the chunks of a byte stream as UTF-8 text.
+///
+/// The transport is free to split the body anywhere, so a chunk may end in the
+/// middle of a multi-byte character: the incomplete sequence is kept and
+/// completed by the next chunk instead of being reported as invalid UTF-8.
+fn decode_text_chunks(
+    data: impl Stream<Item = Result<Bytes, Bytes>> + Send + 'static,
+) -> impl Stream<Item = Result<String, TextChunkError>> + Send + 'static {
+    let mut pending = Vec::<u8>::new();
+    data.map(Some)
+        .chain(futures::stream::once(std::future::ready(None)))
+        .filter_map(move |chunk| {
+            let item = match chunk {
+                Some(Ok(bytes)) => {
+                    pending.extend_from_slice(&bytes);
+                    match std::str::from_utf8(&pending) {
+                        Ok(text) => {
+                            let text = text.to_owned();
+                            pending.clear();
+                            Some(Ok(text))
+                        }
+                        // incomplete character at the end: wait for the rest
+                        Err(e) if e.error_len().is_none() => {
+                            let tail = pending.split_off(e.valid_up_to());
+                            let head = std::mem::replace(&mut pending, tail);
+                            (!head.is_empty()).then(|| {
+                                String::from_utf8(head).map_err(|e| {
+                                    TextChunkError::Utf8(e.to_string())
+                                })
+                            })
+                        }
+                        Err(e) => {
+                            pending.clear();
+                            Some(Err(TextChunkError::Utf8(e.to_string())))
+                        }
+                    }
+                }
+                Some(Err(bytes)) => Some(Err(TextChunkError::Remote(bytes))),
+                // end of the stream: whatever is left is a truncated character
+                None => (!pending.is_empty()).then(|| {
+                    String::from_utf8(std::mem::take(&mut pending))
+                        .map_err(|e| TextChunkError::Utf8(e.to_string()))
+                }),
+            };
+            std::future::ready(item)
+        })
+}
+
 impl<E, T, Request> IntoReq<StreamingText, Request, E> for T
 where
     Request: ClientReq<E>,
@@ -227,17 +294,10 @@ where
 {
     async fn from_req(req: Request) -> Result<Self, E> {
         let data = req.try_into_stream()?;
-        let s = TextStream::new(data.map(|chunk| match chunk {
-            Ok(bytes) => {
-                let de = String::from_utf8(bytes.to_vec()).map_err(|e| {
-                    E::from_server_fn_error(ServerFnErrorErr::Deserialization(
-                        e.to_string(),
-                    ))
-                })?;
-                Ok(de)
-            }
-            Err(bytes) => Err(E::de(bytes)),
-        }));
+        let s = TextStream::new(
+            decode_text_chunks(data)
+                .map(|chunk| chunk.map_err(TextChunkError::into_error)),
+        );
         Ok(s.into())
     }
 }
@@ -263,16 +323,9 @@ where
 {
     async fn from_res(res: Response) -> Result<Self, E> {
         let stream = res.try_into_stream()?;
-        Ok(TextStream(Box::pin(stream.map(|chunk| match chunk {
-            Ok(bytes) => {
-                let de = String::from_utf8(bytes.into()).map_err(|e| {
-                    E::from_server_fn_error(ServerFnErrorErr::Deserialization(
-                        e.to_string(),
-                    ))
-                })?;
-                Ok(de)
-            }
-            Err(bytes) => Err(E::de(bytes)),
-        }))))
+        Ok(TextStream(Box::pin(
+            decode_text_chunks(stream)
+                .map(|chunk| chunk.map_err(TextChunkError::into_error)),
+        )))
     }
 }
